@@ -37,3 +37,168 @@ def refnames(req):
 
 
 HANDLERS = dict(names=names, refnames=refnames)
+
+
+# ---------------------------------------------------------------- ref backends
+import os, shutil, subprocess, tempfile
+
+_TEMPLATE = None
+GIT_ENV = {"GIT_CONFIG_NOSYSTEM": "1", "GIT_CONFIG_GLOBAL": "/dev/null", "HOME": "/nonexistent", "LC_ALL": "C",
+           "PATH": os.environ.get("PATH", "/usr/bin:/bin"), "GIT_AUTHOR_NAME": "a", "GIT_AUTHOR_EMAIL": "a@x",
+           "GIT_COMMITTER_NAME": "c", "GIT_COMMITTER_EMAIL": "c@x", "GIT_AUTHOR_DATE": "1700000000 +0000",
+           "GIT_COMMITTER_DATE": "1700000000 +0000"}
+
+
+def _git(args, cwd):
+    return subprocess.run(["git"] + args, cwd=cwd, env=GIT_ENV, stdout=subprocess.PIPE, stderr=subprocess.PIPE)
+
+
+def template():
+    """a bare repository with three commits (deterministic ids) and no refs but HEAD -> refs/heads/main"""
+    global _TEMPLATE
+    if _TEMPLATE is None:
+        d = tempfile.mkdtemp(prefix="verif-refs-tpl-", dir=os.environ.get("VERIF_SCRATCH") or None)
+        _git(["init", "-q", "--bare", "-b", "main", d], "/")
+        ids = []
+        parent = []
+        for i in range(3):
+            t = _git(["hash-object", "-w", "-t", "tree", "/dev/null"], d).stdout.strip()
+            c = _git(["commit-tree", t.decode(), "-m", "c%d" % i] + parent, d).stdout.strip()
+            ids.append(c)
+            parent = ["-p", c.decode()]
+        _TEMPLATE = (d, ids)
+        import atexit
+        atexit.register(lambda: shutil.rmtree(d, ignore_errors=True))
+    return _TEMPLATE
+
+
+def _dump(c):
+    out = []
+    for n in sorted(c.allkeys(), key=lambda x: x.hex()):
+        try:
+            v = c.read_ref(n)
+        except KeyError:
+            v = None
+        if not v:
+            continue
+        if v.startswith(b"ref: "):
+            out.append(hx(n) + "=Y" + hx(v[5:].rstrip(b"\r\n")))
+        else:
+            out.append(hx(n) + "=S" + hx(v))
+    return ",".join(out) or "_"
+
+
+def _apply(c, op, ids):
+    p = op.split(":")
+    val = lambda s: None if s == "NONE" else R(s)
+    try:
+        if p[0] == "set":
+            r = c.set_if_equals(R(p[1]), val(p[2]), R(p[3]))
+        elif p[0] == "add":
+            r = c.add_if_new(R(p[1]), R(p[2]))
+        elif p[0] == "del":
+            r = c.remove_if_equals(R(p[1]), val(p[2]))
+        elif p[0] == "sym":
+            c.set_symbolic_ref(R(p[1]), R(p[2])); r = True
+        elif p[0] == "pack":
+            c.pack_refs(all=(p[1] == "1")); r = True
+        else:
+            raise AssertionError(op)
+        return "T" if r else "F", None
+    except Exception as e:
+        return "E", type(e).__name__
+
+
+def refs_disk(req):
+    tpl, ids = template()
+    d = tempfile.mkdtemp(prefix="verif-refs-", dir=os.environ.get("VERIF_SCRATCH") or None)
+    try:
+        path = os.path.join(d, "r.git")
+        shutil.copytree(tpl, path)
+        c = RF.DiskRefsContainer(os.fsencode(path))
+        out, excs = [], []
+        for k, op in enumerate(req["ops"].split(";")):
+            if op == "reopen":
+                c = RF.DiskRefsContainer(os.fsencode(path))
+                continue
+            r, e = _apply(c, op, ids)
+            if e:
+                excs.append(e)
+            out.append(r + " " + _dump(c))
+        res = {"v": "|".join(out), "excs": excs}
+        if req.get("git"):
+            g = _git(["for-each-ref", "--format=%(refname) %(objectname) %(symref)"], path)
+            lines = []
+            for l in g.stdout.decode("latin1").splitlines():
+                n, o, s = (l.split(" ") + ["", ""])[:3]
+                lines.append(hx(n.encode("latin1")) + ("=Y" + hx(s.encode("latin1")) if s else "=S" + hx(o.encode())))
+            hs = _git(["symbolic-ref", "-q", "HEAD"], path)
+            if hs.returncode == 0:
+                lines.append(hx(b"HEAD") + "=Y" + hx(hs.stdout.strip()))
+            else:
+                hv = _git(["rev-parse", "-q", "--verify", "HEAD"], path)
+                if hv.returncode == 0:
+                    lines.append(hx(b"HEAD") + "=S" + hx(hv.stdout.strip()))
+            res["git"] = ",".join(sorted(lines)) or "_"
+            res["giterr"] = g.stderr.decode("latin1")[:200]
+            # dulwich's final view restricted to what git lists (refs/ + HEAD); dangling symrefs are not listed by git
+            c2 = RF.DiskRefsContainer(os.fsencode(path))
+            res["final"] = _dump(c2)
+            # git's %(symref) names the fully resolved ref: give dulwich's resolution of every symref
+            resolved = {}
+            for n in c2.allkeys():
+                v = c2.read_ref(n)
+                if v and v.startswith(b"ref: "):
+                    try:
+                        resolved[hx(n)] = hx(c2.follow(n)[0][-1])
+                    except Exception as e:
+                        resolved[hx(n)] = "exc:" + type(e).__name__
+            res["resolved"] = resolved
+        return res
+    finally:
+        shutil.rmtree(d, ignore_errors=True)
+
+
+def refs_ids(req):
+    return {"ids": [i.decode() for i in template()[1]]}
+
+
+def refs_other(req):
+    """the same sequence on the in-memory and reftable backends"""
+    tpl, ids = template()
+    res = {}
+    c = RF.DictRefsContainer({b"HEAD": b"ref: refs/heads/main"})
+    out = []
+    for op in req["ops"].split(";"):
+        if op == "reopen":
+            continue
+        r, e = _apply(c, op, ids)
+        out.append(r + " " + _dump(c))
+    res["dict"] = "|".join(out)
+    try:
+        from dulwich.reftable import ReftableRefsContainer
+    except Exception:
+        return res
+    d = tempfile.mkdtemp(prefix="verif-reftable-", dir=os.environ.get("VERIF_SCRATCH") or None)
+    try:
+        c = ReftableRefsContainer(os.path.join(d, "rt"))
+        try:
+            c.set_symbolic_ref(b"HEAD", b"refs/heads/main")
+        except Exception:
+            pass
+        out = []
+        for op in req["ops"].split(";"):
+            if op == "reopen":
+                c = ReftableRefsContainer(os.path.join(d, "rt"))
+                continue
+            r, e = _apply(c, op, ids)
+            out.append(r + " " + _dump(c))
+        res["reftable"] = "|".join(out)
+    except Exception as e:
+        res["reftable_error"] = type(e).__name__ + ": " + str(e)[:200]
+    finally:
+        shutil.rmtree(d, ignore_errors=True)
+    return res
+
+
+HANDLERS.update(refs_disk=refs_disk, refs_ids=refs_ids, refs_other=refs_other)
